@@ -13,7 +13,7 @@ def gen_cases(ctx, label, n):
         ns = G.legal(rng, mp)
         yield dict(ns=ns, kind='legal', seed=i)
         ps = G.perturb(rng, ns)
-        take = ps if ctx.thorough else rng.sample(ps, min(len(ps), 6))
+        take = ps          # every single-fault perturbation, also in the quick tier (they are cheap)
         for kind, p in take:
             yield dict(ns=p, kind=kind, seed=i)
 
@@ -27,7 +27,7 @@ class Decide(Relation):
                 'accepted / SystemExit(2) / other exception compared with the model; non-trivial = a perturbation')
 
     def cases(self, ctx):
-        return gen_cases(ctx, 'args', 60 if ctx.thorough else 28)
+        return gen_cases(ctx, 'args', 80 if ctx.thorough else 24)
 
     def observe(self, inp):
         o = G.run_generator(inp['ns'], seed=inp['seed'], shuffle_flags_seed=inp['seed'])
